@@ -252,6 +252,7 @@ fn check_tree(s: &RS, p: &mut Partial, o: &Opts) {
     if !o.mutations && o.only_mutation.is_none() {
         return;
     }
+    p.count("diff_domain_trees_mutated", 1);
     let irp = f.has_future;
     let muts = match &o.only_mutation {
         Some((kind, result)) => {
@@ -327,6 +328,8 @@ fn check_tree(s: &RS, p: &mut Partial, o: &Opts) {
 struct Family {
     name: &'static str,
     what: String,
+    /// whether the single-mutation sweep (oracle d) runs on the trees of this family
+    mutate: bool,
     /// runs the enumerator
     run: Box<dyn Fn(&mut dyn FnMut(RS))>,
 }
@@ -344,7 +347,68 @@ fn leaves_reduced() -> Vec<RS> {
         RS::ZeroSize,
         RS::Custom("c".into()),
         RS::Recursion(0),
+        RS::Trait(
+            true,
+            vmodel::schema::RTrait {
+                name: "x".into(),
+                methods: vec![],
+                sync: true,
+                send: false,
+            },
+        ),
+        RS::FnClosure(
+            false,
+            vmodel::schema::RTrait {
+                name: "".into(),
+                methods: vec![],
+                sync: false,
+                send: false,
+            },
+        ),
     ]
+}
+
+/// middle leaf alphabet (quick tier, positions crossed with each other)
+fn leaves_middle() -> Vec<RS> {
+    let mut v = vec![];
+    for c in [2u8, 4, 7, 10, 12, 16] {
+        v.push(RS::Prim(c));
+    }
+    v.extend([
+        RS::PrimString(1),
+        RS::ZeroSize,
+        RS::Str,
+        RS::Custom("c".into()),
+        RS::Recursion(1),
+        RS::Struct {
+            name: "x".into(),
+            size: Some(8),
+            align: None,
+            fields: vec![],
+        },
+        RS::Enum {
+            name: "".into(),
+            variants: vec![vmodel::schema::RVariant {
+                name: "x".into(),
+                discr: 1,
+                fields: vec![],
+            }],
+            discr_size: 2,
+            explicit_repr: true,
+            size: None,
+            align: Some(4),
+        },
+        RS::Trait(
+            true,
+            vmodel::schema::RTrait {
+                name: "x".into(),
+                methods: vec![],
+                sync: true,
+                send: false,
+            },
+        ),
+    ]);
+    v
 }
 
 /// the full constructor alphabet as children: every primitive code, every string layout, every
@@ -374,6 +438,7 @@ fn families(tier: Tier) -> Vec<Family> {
     {
         let full = full.clone();
         fams.push(Family {
+            mutate: true,
             name: "depth0_full_attributes",
             what: format!("every node without schema children; profile {}", gen::describe(&full)),
             run: Box::new(move |e| gen::nodes(&full, &[], &[], e)),
@@ -382,6 +447,7 @@ fn families(tier: Tier) -> Vec<Family> {
     {
         let (full, k) = (full.clone(), k.clone());
         fams.push(Family {
+            mutate: true,
             name: "depth1_full_attributes",
             what: format!(
                 "every node with exactly one schema child from {:?}, all attribute alphabets fully crossed (profile full)",
@@ -393,6 +459,7 @@ fn families(tier: Tier) -> Vec<Family> {
     {
         let (red, a0, r) = (red.clone(), a0.clone(), r.clone());
         fams.push(Family {
+            mutate: true,
             name: "depth1_full_child_alphabet",
             what: format!(
                 "every node with one child from the full leaf alphabet ({} leaves) or two children from the reduced leaf alphabet {:?}; profile {}",
@@ -401,6 +468,32 @@ fn families(tier: Tier) -> Vec<Family> {
                 gen::describe(&red)
             ),
             run: Box::new(move |e| gen::nodes(&red, &a0, &r, e)),
+        });
+    }
+    {
+        // names outside ASCII (byte length != character count) and boundary numbers
+        let mut p = gen::minimal();
+        let n = || "\u{e9}\u{4e16}".to_string();
+        p.label = "boundary";
+        p.struct_attrs = vec![(n(), Some(0), Some(u64::MAX)), (n(), Some(u64::MAX), Some(0))];
+        p.field_attrs = vec![(n(), Some(u64::MAX)), (n(), Some(0))];
+        p.enum_attrs = vec![(n(), 0, true, Some(u64::MAX), Some(0)), (n(), 255, false, Some(0), Some(u64::MAX))];
+        p.variant_attrs = vec![(n(), 255), (n(), 128)];
+        p.trait_attrs = vec![(n(), true, true)];
+        p.method_attrs = vec![(n(), 2, true)];
+        p.customs = vec![n(), "x".repeat(300)];
+        p.recursions = vec![u64::MAX, 1 << 32];
+        p.counts = vec![u64::MAX, 1 << 32, 255, 256];
+        let k = k.clone();
+        fams.push(Family {
+            mutate: true,
+            name: "boundary_values",
+            what: format!(
+                "every node with one child or two children from {:?} under a profile with multi-byte names, a 300-byte custom string and numbers 0 / 255 / 256 / 2^32 / u64::MAX in sizes, alignments, offsets, discriminants, discriminant widths, array counts and recursion depths: {}",
+                k,
+                gen::describe(&p).chars().take(400).collect::<String>()
+            ),
+            run: Box::new(move |e| gen::nodes(&p, &k, &k, e)),
         });
     }
     // depth 2: children are leaves or depth-1 nodes over a reduced leaf alphabet
@@ -446,6 +539,7 @@ fn families(tier: Tier) -> Vec<Family> {
     {
         let (min, s1, m1) = (min.clone(), d1_single.clone(), d1_multi.clone());
         fams.push(Family {
+            mutate: true,
             name: "depth2_reduced",
             what: format!(
                 "every node with one child from D1 ({} trees: reduced leaves + every depth-1 node over them under profile minimal) or two children from {} fixed leaf/depth-1 trees; profile {}",
@@ -456,10 +550,34 @@ fn families(tier: Tier) -> Vec<Family> {
             run: Box::new(move |e| gen::nodes(&min, &s1, &m1, e)),
         });
     }
+    if tier == Tier::Quick {
+        let m = leaves_middle();
+        let red = red.clone();
+        fams.push(Family {
+            mutate: false,
+            name: "depth1_two_children_middle_alphabet",
+            what: format!("every node with two children, both from the middle leaf alphabet ({} leaves: {:?}); profile reduced", m.len(), m),
+            run: Box::new(move |e| gen::nodes(&red, &[], &m, e)),
+        });
+    }
+    {
+        let (red, s1, m1) = (red.clone(), d1_single.clone(), d1_multi.clone());
+        fams.push(Family {
+            mutate: tier == Tier::Thorough,
+            name: "depth2_reduced_profile",
+            what: format!(
+                "every node with one child from D1 ({} trees, as above) or two children from the {} fixed leaf/depth-1 trees; profile reduced",
+                s1.len(),
+                m1.len()
+            ),
+            run: Box::new(move |e| gen::nodes(&red, &s1, &m1, e)),
+        });
+    }
     if tier == Tier::Thorough {
         {
             let (red, a0) = (red.clone(), a0.clone());
             fams.push(Family {
+            mutate: true,
                 name: "depth1_two_children_full_alphabet",
                 what: format!(
                     "every node with two children, both from the full leaf alphabet ({} leaves); profile reduced",
@@ -483,6 +601,7 @@ fn families(tier: Tier) -> Vec<Family> {
         {
             let (red, s1, m1) = (red.clone(), d1_big.clone(), d1_multi_big.clone());
             fams.push(Family {
+            mutate: true,
                 name: "depth2_full",
                 what: format!(
                     "every node with one child from D1' ({} trees: full leaf alphabet + every depth-1 node with one child from the reduced leaves or two children from {:?}, profile reduced) or two children from {} leaf/depth-1 trees; profile reduced",
@@ -504,6 +623,7 @@ fn families(tier: Tier) -> Vec<Family> {
         {
             let (min, s2, m1) = (min.clone(), d2_small.clone(), d1_multi.clone());
             fams.push(Family {
+            mutate: true,
                 name: "depth3_reduced",
                 what: format!(
                     "every node with one child from D2 ({} trees: all depth<=2 single-child chains over leaves {{u8, String(layout 1), zero-size}} under profile minimal) or two children from {} fixed trees; profile minimal",
@@ -595,6 +715,7 @@ fn replay(args: &vcommon::Args, path: &std::path::Path) -> ! {
             check_tree(&s, &mut p, &opts);
         }
         Some("file") | Some("save") => {
+            std::env::set_var("VSCHEMA_VERBOSE", "1");
             if let Err(e) = files::replay_file(&mut p, case) {
                 vcommon::machinery_error(&format!("bad file case: {}", e));
             }
@@ -670,12 +791,17 @@ fn main() {
     {
         let et = extra_trees.clone();
         fams.push(Family {
+            mutate: true,
             name: "real_types_and_golden_files",
             what: "schemas of the three derived test types P, E, N and the trait definitions of the checked-in golden ledger files".into(),
             run: Box::new(move |e| et.iter().cloned().for_each(e)),
         });
     }
     for fam in &fams {
+        let opts = Opts {
+            mutations: fam.mutate,
+            ..opts.clone()
+        };
         let mut batch: Vec<RS> = vec![];
         let mut emitted = 0u64;
         let mut fresh = 0u64;
@@ -710,10 +836,19 @@ fn main() {
             }
         });
         flush(&mut batch, &mut total, &mut cap_hit, &run);
-        family_stats.push(json!({"family": fam.name, "emitted": emitted, "new_distinct_trees": fresh, "bounds": fam.what}));
+        family_stats.push(json!({"family": fam.name, "emitted": emitted, "new_distinct_trees": fresh, "single_mutation_sweep": fam.mutate, "bounds": fam.what}));
         if std::env::var("VERIF_PROGRESS").is_ok() {
             eprintln!("family {} emitted {} fresh {} t={:.1}s", fam.name, emitted, fresh, run.elapsed());
         }
+    }
+    if let Some(t) = extra_trees.first() {
+        if let Some(mu) = mutate::mutations(t).into_iter().find(|x| x.required) {
+            run.samples.push(json!({"kind": "tree_mutation_pair (oracle d)", "tree": rs_to_json(t),
+                "mutation": {"kind": mu.kind, "desc": mu.desc, "result": rs_to_json(&mu.result)}}));
+        }
+        run.samples.push(json!({"kind": "file case (oracle b)", "type": "P", "format": 0,
+            "bytes": vcommon::hex(&[files::header(0, 0), encode_schema(&strip_layout(t), 0)].concat()),
+            "then": "payload of the value; loaded with savefile::load::<P>"}));
     }
     if count_only {
         for f in &family_stats {
@@ -763,6 +898,7 @@ fn main() {
     cov.insert("trees_by_depth".into(), json!(depth_hist.iter().map(|(d, n)| json!({"depth": d, "trees": n})).collect::<Vec<_>>()));
     cov.insert("max_nodes_per_tree".into(), json!(max_nodes));
     cov.insert("diff_domain_trees".into(), json!(c("diff_domain_trees")));
+    cov.insert("diff_domain_trees_with_mutation_sweep".into(), json!(c("diff_domain_trees_mutated")));
     cov.insert("diff_excluded_undefined".into(), json!(c("diff_excluded_undefined")));
     cov.insert(
         "diff_excluded_future_outside_return_position".into(),
